@@ -130,4 +130,11 @@ def writeOutcome (M : Nat) (sl memHp : Nat) (o : Ownership) (addr len : Nat) : E
   | .ok _ => .ok ()
   | .error e => .error e
 
+/-- outcome of `memcopy(dst, src, len, owner)` on an instance with the given extents (contents irrelevant) -/
+def memcopyOutcome (M : Nat) (sl memHp : Nat) (o : Ownership) (dst src len : Nat) : Except Err Unit :=
+  let m : Mem := { stackLen := sl, stack := fun _ => 0, heapLen := M - memHp, heap := fun _ => 0, hp := memHp }
+  match m.memcopy M dst src len o with
+  | .ok _ => .ok ()
+  | .error e => .error e
+
 end FuelVerif.Memory
